@@ -3,7 +3,7 @@ from .. import gen as G
 from .common import TRUSTED, ASSUMPTIONS, default_nontrivial, LEVEL_NOTE, TECHNIQUE
 
 LEVEL = "proof"
-THEOREMS = []
+THEOREMS = ['C05_refines', 'C05_bayes', 'C05_wf', 'C05_u_bound', 'C05_irrelevant', 'C05_zero_column', 'C05_abduce_eq', 'C05_abduce_wf', 'C05_abduce_base_rate', 'C05_abduce_projection', 'C05_abduce_none_iff']
 RULE = ("inverse / abduce / abduce_with on conditional tables (vacuous, dogmatic, partially informative, zero-likelihood columns, "
         "irrelevant outcomes) x strictly positive base rates (incl. base rates on Y inside the zero-tolerance band (0,eps]); |X|,|Y| in 2..3 (also 4x2); dyadic grids; families A/M/D/N, "
         "&Simplex / OpinionRef / &Opinion; f32+f64. non-trivial = value returned")
